@@ -114,6 +114,23 @@ CHECKS["C17"] = dict(
          "C01's API-built libraries.",
     design="4 C17")
 
+CHECKS["C18"] = dict(
+    level="fault_enumeration",
+    technique="TLC proves no prefix of a spec-encoded stream is accepted (Gdsii.tla strict "
+              "decoder); every cut of every file is run through every reader twice under ASan "
+              "with descriptor accounting and crash/hang supervision; the log is validated by TLC "
+              "against the per-reader outcome relation (C18Trace.tla)",
+    text="Fault enumeration over all truncation points: for each file (specification-encoded "
+         "GDSII, gdstk-written GDSII, gdstk-written OASIS with none/CRC32/checksum32 and CBLOCKs) "
+         "and every prefix length, each reader is called twice in a supervised child built with "
+         "AddressSanitizer; crashes, hangs and sanitizer aborts become trace events that no "
+         "specification action accepts; TLC checks every call against the outcome relation of the "
+         "property (error, or exactly the complete file's units/timestamp; never a valid signature "
+         "for a truncated signed file; no descriptor left open).",
+    note="Trusted: TLC, ASan, /proc/self/fd counting, the supervisor. read_oas is outside the "
+         "property (DESIGN 6.3). Quick tier uses a sample of files, all their cuts.",
+    design="4 C18")
+
 NOT_YET = {}
 
 
